@@ -163,6 +163,39 @@ class Mutant(str):
         return o
 
 
+def swap_function(src, qual):
+    """swap every pair of adjacent, independent simple assignments (`a = E1; b = E2` with E2 not reading a, E1 not reading b, and at most
+    one of E1 / E2 containing a call): behaviour-preserving statement reordering"""
+    tree = ast.parse(src)
+    node = _find(tree, qual)
+    if node is None:
+        return None
+    changed = False
+
+    def names(e):
+        return {n.id for n in ast.walk(e) if isinstance(n, ast.Name)}
+
+    def has_call(e):
+        return any(isinstance(n, (ast.Call, ast.Yield, ast.Await, ast.NamedExpr)) for n in ast.walk(e))
+    for holder in ast.walk(node):
+        for field in ("body", "orelse", "finalbody"):
+            body = getattr(holder, field, None)
+            if not isinstance(body, list):
+                continue
+            i = 0
+            while i + 1 < len(body):
+                a, b = body[i], body[i + 1]
+                if isinstance(a, ast.Assign) and isinstance(b, ast.Assign) and len(a.targets) == 1 and len(b.targets) == 1 \
+                        and isinstance(a.targets[0], ast.Name) and isinstance(b.targets[0], ast.Name) and a.targets[0].id != b.targets[0].id \
+                        and a.targets[0].id not in names(b.value) and b.targets[0].id not in names(a.value) and not (has_call(a.value) and has_call(b.value)):
+                    body[i], body[i + 1] = b, a
+                    changed = True
+                    i += 2
+                else:
+                    i += 1
+    return ast.unparse(tree) if changed else None
+
+
 def mutants_of(src, qual, limit=12):
     """Behaviour-CHANGING single-point mutants of one function (statement deleted, comparison flipped, arithmetic operator swapped,
     boolean operator swapped, constant perturbed).  Used only to harden the analysers: a mutant may legitimately be ok / violation /
@@ -263,7 +296,7 @@ def one(args):
     tmp = None
     try:
         src = open(os.path.join(repo, rel)).read()
-        new = {"temp": temp_function, "inline": inline_function}.get(mode, rename_function)(src, qual)
+        new = {"temp": temp_function, "inline": inline_function, "swap": swap_function}.get(mode, rename_function)(src, qual)
         if new is None:
             return qual, "skipped", ""
         try:
